@@ -449,6 +449,7 @@ def check(repo, run, tier):
     g(unitrules.errors_constructible, repo, run, 'C09.R5')
     g(unitrules.list_path_table, repo, run, 'C09.R4')
     g(unitrules.error_wrapping, repo, run, 'C09.R5')
+    g(unitrules.tag_spec, repo, run, 'C09.R3', ['!xref', '!ref'])
     g.done()
 
 
